@@ -131,6 +131,23 @@ def run(ctx):
             sorts.append(list(perm))
             pairs.append((list(pool), list(perm)))
         pairs.append((list(pool), list(pool[:-1]) + [pool[0]]))
+    # exact powers of 256 as the largest element (a byte-wise sort must look at every byte of the maximum) ...
+    for k in range(1, 8):
+        top = 256 ** k
+        for other in ([7], [top - 1, 1], [3, top, 5], [top + 1, 2], [0, 9, top, top]):
+            a = [top] + other
+            for perm in ([a, a[::-1], a[1:] + a[:1]]):
+                sorts.append(list(perm))
+                pairs.append((list(a), list(perm)))
+    # ... and sequences that differ from a permutation by multiples of 2^62 / 2^63 adding up to 0 modulo 2^64 (power sums agree
+    # modulo 2^64 although the multisets differ)
+    for base_ in ([1, 3], [1, 3, 5], [0, 2], [7, 7, 2], [1, 2, 3, 4], [5, 9]):
+        for offs in ([1 << 63, 1 << 63], [1 << 62, 1 << 62, 1 << 63], [1 << 62] * 4, [1 << 63, 0, 1 << 63], [1 << 63]):
+            if len(offs) > len(base_):
+                continue
+            b = [(x + o) % 2 ** 64 for x, o in zip(base_, offs + [0] * len(base_))]
+            pairs.append((list(base_), b)); pairs.append((b, list(base_)))
+            sorts.append(b)
     for _ in range(nlong):
         n = rnd.randrange(5, 24)
         a = [rnd.choice([rnd.randrange(0, 6), rnd.getrandbits(64), 2 ** 64 - 1, rnd.randrange(0, 1000)]) for _ in range(n)]
